@@ -119,7 +119,8 @@ func (ye *YouTubeExtractor) getDataFromSrcURL(srcURL string) (string, map[string
 		srcURL = "http:" + srcURL
 	}
 
-	parsedURL, err := nurl.ParseRequestURI(srcURL)
+	// The URL may have a fragment, which is not part of the path
+	parsedURL, err := nurl.Parse(srcURL)
 	if err != nil {
 		return "", nil
 	}
